@@ -404,10 +404,14 @@ def _has_action(model, e, fn, memo, depth=4):
         return True
     if isinstance(e, ast.Tuple):
         return bool(e.elts) and _has_action(model, e.elts[0], fn, memo, depth)
+    if isinstance(e, ast.IfExp):
+        return _has_action(model, e.body, fn, memo, depth) and _has_action(model, e.orelse, fn, memo, depth)
     return False
 
 
 def _is_action_ctor(model, x):
+    if isinstance(x, ast.IfExp):
+        return _is_action_ctor(model, x.body) and _is_action_ctor(model, x.orelse)
     if isinstance(x, ast.Call):
         c = T.token_ctor(model, x)
         if c is not None and c.qname in ('defs.ActionToken', 'defs.ParagraphToken'):
@@ -559,14 +563,13 @@ def ix7(model):
             q = y._parent
             inf = False
             while q is not None and q is not f.node:
-                if isinstance(q, ast.While) and isinstance(q.test, ast.Constant) and q.test.value is True \
-                        and not any(isinstance(b, ast.Break) for b in ast.walk(q)):
+                if isinstance(q, (ast.While, ast.For)) and _infinite_loop(model, q):
                     inf = True
                 if isinstance(q, ast.For) and not inf:
                     # a finite loop around the yield is fine only inside an infinite one
                     pass
                 q = q._parent
-            if inf and _all_paths_loop(f):
+            if inf and _all_paths_loop(f, model):
                 r.ok(y, '%s yields inside `while True`' % f.name, nontrivial=True)
             else:
                 r.fail(y, 'the label generator %s can be exhausted: next() in expand_item then '
@@ -576,13 +579,41 @@ def ix7(model):
     return r
 
 
-def _all_paths_loop(f):
+def _infinite_loop(model, q):
+    """`while True` without break, or `for x in itertools.count(..) / itertools.cycle(<non-empty>)`
+    / itertools.repeat(x) without break"""
+    if any(isinstance(b, ast.Break) for b in ast.walk(q)):
+        return False
+    if isinstance(q, ast.While):
+        return isinstance(q.test, ast.Constant) and q.test.value is True
+    if isinstance(q, ast.For) and isinstance(q.iter, ast.Call):
+        rc = model.resolve_call(q.iter)
+        name = rc[1] if rc and rc[0] == 'ext' else ''
+        if name == 'itertools.count':
+            return True
+        if name == 'itertools.repeat' and len(q.iter.args) == 1:
+            return True
+        if name == 'itertools.cycle' and q.iter.args:
+            a = q.iter.args[0]
+            if isinstance(a, ast.Constant) and isinstance(a.value, str) and a.value:
+                return True
+            if isinstance(a, (ast.List, ast.Tuple)) and a.elts:
+                return True
+            if isinstance(a, ast.Attribute) and unparse(a) in ('string.ascii_lowercase', 'string.ascii_uppercase',
+                                                              'string.ascii_letters', 'string.digits'):
+                return True
+    return False
+
+
+def _all_paths_loop(f, model=None):
     """every top-level path of the generator ends in an infinite loop (no fall-through)"""
     def ends(stmts):
         if not stmts:
             return False
         last = stmts[-1]
         if isinstance(last, ast.While) and isinstance(last.test, ast.Constant) and last.test.value is True:
+            return True
+        if model is not None and isinstance(last, (ast.While, ast.For)) and _infinite_loop(model, last):
             return True
         if isinstance(last, ast.If):
             return ends(last.body) and ends(last.orelse)
